@@ -561,6 +561,49 @@ def scaling(chk, repo, mw, d, eq):
         world = Obj(name='w', attrs={'config': {**nw.attrs['config']}, 'name': nm})
     chk.ob('R16.4', 'chain of 6 build_from_world derivations terminates and every derived world is named differently from the world it was derived from', ok, why or ' -> '.join(seen), mw.where(f_from), key='R16.4|derivation-chain', method='concrete interpretation of the naming logic')
     chk.note_analysed('names', ' -> '.join(seen))
+    # mixed chains: every sequence of derivations with the name left to the package -- build_from_world with an empty override, with an override that repeats the
+    # parent's name, scale_from_world up and down -- of length 2 and 3 (thorough: 4).  Each derived world carries the name and the configuration build_world was given
+    # (the name a later derivation starts from is read from either), and must be named differently from the world it was derived from.
+    import itertools as _it
+    from fractions import Fraction as _Fr
+    ops = {'build_from_world({})': lambda w: it.call(mw, f_from, [w, {}], {}),
+           'build_from_world({name: parent name})': lambda w: it.call(mw, f_from, [w, {'name': w.attrs['name']}], {}),
+           'scale_from_world(x2)': lambda w: it.call(mw, f_scale, [w], {'radius_scale': X.const(2)}),
+           'scale_from_world(x1/2)': lambda w: it.call(mw, f_scale, [w], {'radius_scale': X.const(_Fr(1, 2))})}
+    def chain_hook(itp, f, args, kwargs, e, fr):
+        # only the final construction is a stand-in: scale_from_world runs the real build_from_world
+        if isinstance(f, FuncRef) and f.node.name == 'build_world':
+            recorded['built'] = (args[0], args[1])
+            return Obj(name='newworld', attrs={'name': args[0], 'config': args[1]})
+        return NotImplemented
+    nchains = 0
+    for length in ((2, 3, 4) if chk.tier == 'thorough' else (2, 3)):
+        for seq in _it.product(ops, repeat=length):
+            it = Interp(repo, hooks={'global': glob_hook, 'call': chain_hook}, max_depth=14, max_unroll=200)
+            name = 'Io_Simple'
+            world = Obj(name='w', attrs={'config': {'name': name, 'type': 'layered', 'radius': X.atom('R', 'pos'), 'layers': {'Core': {'radius': X.atom('R', 'pos'), 'type': 'rock', 'density': X.atom('rho0', 'pos')}}}, 'name': name})
+            seen = [name]; why = ''
+            for step, op in enumerate(seq):
+                try:
+                    recorded.clear()
+                    nw = ops[op](world)
+                    if not isinstance(nw, Obj) and 'built' in recorded:
+                        nw = Obj(name='newworld', attrs={'name': recorded['built'][0], 'config': recorded['built'][1]})
+                    elif not isinstance(nw, Obj) and isinstance(recorded.get('new_config'), dict):
+                        nw = Obj(name='newworld', attrs={'name': recorded.get('new_name'), 'config': recorded['new_config']})
+                except (AnalysisError, RaiseSignal) as ex:
+                    why = f'derivation {step + 1} ({op}) from {seen[-1]!r} cannot be interpreted / raises: {str(getattr(ex, "text", ex))[:100]}'; break
+                nm = nw.attrs.get('name') if isinstance(nw, Obj) else None
+                if not isinstance(nm, str):
+                    why = f'derivation {step + 1} ({op}): no name for the derived world'; break
+                if nm == seen[-1]:
+                    why = f'derivation {step + 1} ({op}) keeps its parent\'s name {nm!r} (chain: {" -> ".join(seen)})'; break
+                seen.append(nm)
+                world = Obj(name='w', attrs={'config': nw.attrs['config'], 'name': nm})
+            nchains += 1
+            chk.ob('R16.4', f'derivation chain {" ; ".join(seq)}: every derived world is named differently from the world it was derived from', not why, why, mw.where(f_from),
+                   key=f'R16.4|chain|{"|".join(seq)}', method='concrete interpretation of the naming logic of both derivation entry points')
+    chk.note_analysed('mixed derivation chains', nchains)
 
 
 def derivation_mass(chk, repo, mw, d):
